@@ -497,6 +497,23 @@ fn run_poly(case: u64, rng: &mut Rng, ev: &mut Ev) {
         }
         ev.inc("size_hint_checks");
     }
+    // AffTree-level metrics and accessors against the snapshot
+    let n_terms = s.nodes.values().filter(|n| !n.has_children()).count();
+    let maxd = s.nodes.keys().map(|i| s.depth_of(*i)).max().unwrap_or(0);
+    let acc_ok = tree.len() == s.nodes.len()
+        && tree.num_terminals() == n_terms
+        && tree.depth() == maxd
+        && tree.nodes().count() == s.nodes.len()
+        && tree.terminals().count() == n_terms
+        && tree.decisions().count() == s.nodes.len() - n_terms
+        && !tree.is_empty()
+        && tree.in_dim() == s.in_dim
+        && tree.polyhedra_iter().count() == s.nodes.len();
+    if !acc_ok {
+        ev.violation(case, "c13:afftree-metrics", "", json!({"case": shape, "len": tree.len(), "num_terminals": tree.num_terminals(), "depth": tree.depth(), "expected": [s.nodes.len(), n_terms, maxd]}));
+        ev.evaluations += 1;
+        return;
+    }
     ev.evaluations += 1;
     let mut h = Hasher::new();
     h.u(s.structural_hash());
